@@ -354,6 +354,45 @@ func configure(g *gen) {
 			{Callee: "_.WithContext", Value: "({ %1 with original := some %2 } : GoRt.OReq)", T: oreq},
 			{Callee: "h.ServeHTTP", Stmts: []string{"served := some %2"}},
 		}})
+	// pkg/render: the content-type rule, `Blob` and its five aliases, and the content negotiation of `Auto`.  The
+	// http.ResponseWriter is a record of its header map and the calls it received (`GoRt.HW`); what `Write` answers
+	// is a parameter (`wans`: error or not, from the state of the writer); in `Auto` the three renderers it hands the
+	// value to and the parsed Accept header are operations of an environment.
+	hw := T{"opaque", "GoRt.HW"}
+	hwTypes := map[string]T{"http.ResponseWriter": hw, "http.Header": {"opaque", "List (Bytes × Bytes)"}}
+	hwExts := []Ext{
+		{Callee: "_.Header", Value: "(%1).header", T: T{"opaque", "List (Bytes × Bytes)"}},
+		{Callee: "header[]", Value: "(GoRt.hdrGet header %1)", T: tStrList},
+		{Callee: "_.Header().Set", Stmts: []string{"w := GoRt.HW.set %1 %2 %3"}},
+		{Callee: "_.Write", Stmts: []string{"w := GoRt.HW.write %1 %2"}, Values: []string{"(0 : Int)", "(wans w)"}, Ts: []T{tInt, T{"opaque", "Bool"}}},
+		{Callee: "writeContentType", Stmts: []string{"w := Gen.writeContentType %1 %2"}},
+		{Callee: "Blob", Stmts: []string{"let %t := Gen.renderBlob %1 %2 %3 wans", "w := %t.1"}, Value: "%t.2", T: T{"opaque", "Bool"}},
+	}
+	add(FnSpec{Pkg: "pkg/render", Func: "writeContentType", Lean: "writeContentType", MutParams: []string{"w"},
+		RetExtra: []string{"w"}, RetExtraT: []string{"GoRt.HW"}, Types: hwTypes, Exts: hwExts})
+	rspec := func(name, lean string) {
+		add(FnSpec{Pkg: "pkg/render", Func: name, Lean: lean, MutParams: []string{"w"}, Extra: []string{"(wans : GoRt.HW → Bool)"},
+			RetExtra: []string{"w"}, RetExtraT: []string{"GoRt.HW"}, Types: hwTypes, Exts: hwExts})
+	}
+	rspec("Blob", "renderBlob")
+	rspec("Text", "renderText")
+	rspec("Plain", "renderPlain")
+	rspec("TextBytes", "renderTextBytes")
+	rspec("HTML", "renderHTML")
+	rspec("HTMLBytes", "renderHTMLBytes")
+	add(FnSpec{Pkg: "pkg/render", Func: "Auto", Lean: "renderAuto", MutParams: []string{"w"},
+		Extra:    []string{"(env : GoRt.RAEnv GoRt.HW)", "(fallbackType : Bytes)"},
+		RetExtra: []string{"w"}, RetExtraT: []string{"GoRt.HW"},
+		Types: map[string]T{"http.ResponseWriter": hw, "*http.Request": {"opaque", "Option Nat"}, "any": {"opaque", "Unit"}},
+		Exts: []Ext{
+			{Callee: "r.Header.Get", Value: "(env.acceptHeader %1)", T: tStr},
+			{Callee: "httpreq.ParseAccept", Value: "(env.parseAccept %1)", T: tStrList},
+			{Callee: "FallbackType", Value: "fallbackType", T: tStr},
+			{Callee: "JSON", Stmts: []string{"let %t := env.json %1", "w := %t.1"}, Value: "%t.2", T: T{"opaque", "Bool"}},
+			{Callee: "XML", Stmts: []string{"let %t := env.xml %1", "w := %t.1"}, Value: "%t.2", T: T{"opaque", "Bool"}},
+			{Callee: "responseText", Stmts: []string{"let %t := env.text %1", "w := %t.1"}, Value: "%t.2", T: T{"opaque", "Bool"}},
+			{Callee: "errors.New", Value: "true", T: T{"opaque", "Bool"}},
+		}})
 	// pkg/binding: the source decision of `Auto` (which binder reads what); the binders themselves and the two
 	// form parsers are operations whose only modelled effect is to be recorded as the chosen source
 	breq := T{"opaque", "GoRt.BReq"}
